@@ -711,6 +711,24 @@ def merge_measure_contents(notes, other, measure_start):
     return result, pos, max_pos
 
 
+def make_pedal_stop_el(direction):
+    # the end of a pedal is type="stop" in MusicXML (and this is what
+    # load_musicxml pairs with the start)
+    e0e = etree.Element("direction", placement="below")
+    e1e = etree.SubElement(e0e, "direction-type")
+    if isinstance(direction, score.SustainPedalDirection):
+        pedal_kwargs = {}
+        if direction.line:
+            pedal_kwargs["line"] = "yes"
+        else:
+            pedal_kwargs["sign"] = "yes"
+        etree.SubElement(e1e, "pedal", type="stop", **pedal_kwargs)
+    if direction.staff is not None and direction.staff != 1:
+        e3e = etree.SubElement(e0e, "staff")
+        e3e.text = str(direction.staff)
+    return e0e
+
+
 def do_directions(part, start, end, counter):
     result = []
 
@@ -738,6 +756,19 @@ def do_directions(part, start, end, counter):
 
         elem = (direction.end.t, None, e0)
         result.append(elem)
+
+    # ending pedals: like the ranges above, a pedal is stopped in the measure
+    # in which it ends, which need not be the measure in which it starts
+    pedals = part.iter_all(
+        score.PedalDirection,
+        start.next,
+        end.next,
+        include_subclasses=True,
+        mode="ending",
+    )
+
+    for direction in pedals:
+        result.append((direction.end.t, None, make_pedal_stop_el(direction)))
 
     tempos = part.iter_all(score.Tempo, start, end)
     directions = part.iter_all(score.Direction, start, end, include_subclasses=True)
@@ -783,25 +814,8 @@ def do_directions(part, start, end, counter):
                     e3s.text = str(direction.staff)
                 elem = (direction.start.t, None, e0s)
                 result.append(elem)
-            if ped_end.t <= end.t:
-                e0e = etree.Element("direction", placement="below")
-                e1e = etree.SubElement(e0e, "direction-type")
-                if isinstance(direction, score.SustainPedalDirection):
-                    pedal_kwargs = {}
-                    if direction.line:
-                        pedal_kwargs["line"] = "yes"
-                    else:
-                        pedal_kwargs["sign"] = "yes"
-                    # For Flake8 (ignore unused variable), since
-                    # etree.SubElement adds e2e to e1e
-                    e2e = etree.SubElement(  # noqa: F841
-                        e1e, "pedal", type="end", **pedal_kwargs
-                    )
-                if direction.staff is not None and direction.staff != 1:
-                    e3e = etree.SubElement(e0e, "staff")
-                    e3e.text = str(direction.staff)
-                elem = (ped_end.t, None, e0e)
-                result.append(elem)
+            if direction.end is None:
+                result.append((ped_end.t, None, make_pedal_stop_el(direction)))
         else:
             e0 = etree.Element("direction")
             e1 = etree.SubElement(e0, "direction-type")
